@@ -323,7 +323,7 @@ def _trace_init(S_):
     S_.I.st.ghost.setdefault("provider_specs", {})[str(z3.simplify(tl))] = provided
 
 
-c = contract(TH, "TriggerHandler.trace_call", ["C01", "C03", "C04", "C10", "C15"])
+c = contract(TH, "TriggerHandler.trace_call", ["C01", "C03", "C04", "C10", "C11", "C15"])
 c.param("self", OBJ("TriggerHandler")).param("frame", FRAME()).param("event", STR).param("arg", ANY)
 c.req("store-invariant", lambda S_: store_inv(S_.old, S_.a.self, S_))
 c.init_ghost = _trace_init
